@@ -5,6 +5,7 @@ import (
 	"hash/fnv"
 	"math"
 	"os"
+	"sort"
 	"strings"
 
 	"golang.org/x/tools/go/ssa"
@@ -702,7 +703,18 @@ func (e *OpEngine) numericCompare(got, want sym.Expr, dims []sym.Poly) (int, str
 	for _, v := range edges {
 		seen[v] = true
 	}
-	for _, c := range append(got.Constants(), want.Constants()...) {
+	harvest := append(got.Constants(), want.Constants()...)
+	// … and the constants the path condition compares with (a guard `x <= -650` is only met by points beyond it)
+	var condConsts []float64
+	for _, c := range e.M.RealConds() {
+		for _, v := range c.E.Constants() {
+			if v != 0 && !math.IsNaN(v) && !math.IsInf(v, 0) {
+				condConsts = append(condConsts, v)
+			}
+		}
+	}
+	harvest = append(harvest, condConsts...)
+	for _, c := range harvest {
 		for _, v := range []float64{c, -c, c * (1 + 1e-3), c * (1 - 1e-3), 1 - c, c + 1, c - 1, 2 * c} {
 			if !seen[v] && !math.IsNaN(v) && !math.IsInf(v, 0) && len(edges) < 96 {
 				seen[v] = true
@@ -822,6 +834,12 @@ func (e *OpEngine) numericCompare(got, want sym.Expr, dims []sym.Poly) (int, str
 				if (finB && !finA) || !closeEnough(a, b) {
 					return 1, fmt.Sprintf("at %s index %v%s: code formula gives %.6g, definition gives %.6g", sym.ModelString(mdl), pos, symsString(env), a, b)
 				}
+				// flush to zero: the code's result on this path is the CONSTANT 0 where the defined value - a plain
+				// one-term function such as exp(x) - is a normal (not even subnormal) non-zero float64; a quotient
+				// of such values (Softmax on a row of large negative scores) turns into 0/0
+				if gc, isC := sym.ClosedConst(got); isC && gc == 0 && finB && math.Abs(b) >= 2.3e-308 && math.Abs(b) < 1e-7 && sym.SingleTermNoInverse(want) {
+					return 1, fmt.Sprintf("at %s index %v%s: the code returns the constant 0 where the defined value is the normal non-zero number %.6g (flushed to zero: ratios of such values become 0/0)", sym.ModelString(mdl), pos, symsString(env), b)
+				}
 			}
 			k := len(pos) - 1
 			for k >= 0 {
@@ -836,6 +854,9 @@ func (e *OpEngine) numericCompare(got, want sym.Expr, dims []sym.Poly) (int, str
 				break
 			}
 		}
+	}
+	if v, w := e.uniformAndNonFinitePoints(got, want, cs, condConsts); v == 1 {
+		return 1, w
 	}
 	// directed points: the path runs under a thin condition (|a-b| <= τ with a tiny τ, or an exact equality)
 	// that random points never satisfy; solve it for one element that occurs linearly, all others 0
@@ -1068,4 +1089,111 @@ func closeEnough(a, b float64) bool {
 	}
 	d := math.Abs(a - b)
 	return d <= 1e-7*(1+math.Abs(a)+math.Abs(b))
+}
+
+
+// uniformAndNonFinitePoints is tried when no ordinary sample point separates two different normal forms.
+// (1) Uniform points: every element takes the same value, drawn from the constants of the path condition and their
+// neighbours - a guard on the operand's magnitude is met by all elements at once.
+// (2) Non-finite points: elements drawn from {0, finite, ±Inf}.  Both formulas are evaluated with float64 arithmetic
+// (0·Inf = NaN, Inf-Inf = NaN); a path that drops a term (a "skip the zero entries" fast path) agrees with the
+// definition on every finite point and differs in class (finite / +Inf / -Inf / NaN) only here.  Formulas or path
+// conditions that test for NaN/Inf themselves are not evaluated this way (their predicates are opaque atoms).
+func (e *OpEngine) uniformAndNonFinitePoints(got, want sym.Expr, cs []sym.Constraint, condConsts []float64) (int, string) {
+	mdl, ok := sym.Model(cs, 1, 4, nil)
+	if !ok {
+		return 0, ""
+	}
+	mkEnv := func() *sym.EvalEnv {
+		env := &sym.EvalEnv{Ints: map[string]int64{}, Syms: map[string]float64{spec.Tol: 1e-9}}
+		for k, v := range mdl {
+			env.Ints[k] = v
+		}
+		for n, v := range e.M.SymEqualities() {
+			if r, ok := v.Const(); ok {
+				env.Syms[n], _ = r.Float64()
+			}
+		}
+		for k := 0; k < 8; k++ { // position-dependent formulas are evaluated at the first position
+			if _, has := env.Ints[spec.IxName(k)]; !has {
+				env.Ints[spec.IxName(k)] = 0
+			}
+		}
+		return env
+	}
+	var uni []float64
+	for _, c := range condConsts {
+		uni = append(uni, c, -c, c-1, c+1, -c-1, -c+1, c*1.001, -c*1.001)
+	}
+	if len(uni) > 64 {
+		uni = uni[:64]
+	}
+	for _, v := range uni {
+		v := v
+		env := mkEnv()
+		env.Leaf = func(string, []int64) float64 { return v }
+		a, err1 := evalWithDefaults(got, env, 1.25)
+		b, err2 := evalWithDefaults(want, env, 1.25)
+		if err1 != nil || err2 != nil || !e.realCondsHold(env) {
+			continue
+		}
+		finA := !math.IsNaN(a) && !math.IsInf(a, 0)
+		finB := !math.IsNaN(b) && !math.IsInf(b, 0)
+		if finA && finB && !closeEnough(a, b) {
+			return 1, fmt.Sprintf("at %s, every element = %g%s: code formula gives %.6g, definition gives %.6g", sym.ModelString(mdl), v, symsString(env), a, b)
+		}
+		if gc, isC := sym.ClosedConst(got); isC && gc == 0 && finB && math.Abs(b) >= 2.3e-308 && math.Abs(b) < 1e-7 && sym.SingleTermNoInverse(want) {
+			return 1, fmt.Sprintf("at %s, every element = %g%s: the code returns the constant 0 where the defined value is the normal non-zero number %.6g (flushed to zero: ratios of such values become 0/0)", sym.ModelString(mdl), v, symsString(env), b)
+		}
+	}
+	opaque := func(s string) bool { return strings.Contains(s, "isnan(") || strings.Contains(s, "isinf(") }
+	if opaque(got.String()) || opaque(want.String()) {
+		return 0, ""
+	}
+	for _, c := range e.M.RealConds() {
+		if opaque(c.String()) {
+			return 0, ""
+		}
+	}
+	nf := []float64{0, 1.5, math.Inf(1), -2, 0, math.Inf(-1), 0.5, 1}
+	class := func(x float64) string {
+		switch {
+		case math.IsNaN(x):
+			return "NaN"
+		case math.IsInf(x, 1):
+			return "+Inf"
+		case math.IsInf(x, -1):
+			return "-Inf"
+		}
+		return "finite"
+	}
+	for salt := 0; salt < 64; salt++ {
+		salt := salt
+		env := mkEnv()
+		used := map[string]float64{}
+		env.Leaf = func(name string, idx []int64) float64 {
+			v := nf[leafHash(fmt.Sprintf("%s#nf%d", name, salt), idx)%uint64(len(nf))]
+			used[fmt.Sprintf("%s%v", name, idx)] = v
+			return v
+		}
+		a, err1 := evalWithDefaults(got, env, 1.25)
+		b, err2 := evalWithDefaults(want, env, 1.25)
+		if err1 != nil || err2 != nil || !e.realCondsHold(env) {
+			continue
+		}
+		if class(a) != class(b) {
+			var pts []string
+			for k, v := range used {
+				if math.IsInf(v, 0) || v == 0 {
+					pts = append(pts, fmt.Sprintf("%s=%g", k, v))
+				}
+			}
+			sort.Strings(pts)
+			if len(pts) > 8 {
+				pts = pts[:8]
+			}
+			return 1, fmt.Sprintf("at %s with %s%s: in float64 arithmetic the code formula gives %s (%.6g), the definition gives %s (0·Inf and Inf-Inf are NaN, a term dropped on this path changes the class of the result)", sym.ModelString(mdl), strings.Join(pts, " "), symsString(env), class(a), a, class(b))
+		}
+	}
+	return 0, ""
 }
